@@ -45,7 +45,7 @@ if exe is None:
     bail("harness-build", "harness does not build against /repo", out)
 work = ck.mkscratch()
 res = os.path.join(work, "out.json")
-nprog, ncases, perfile = (400, 8, 4) if ck.thorough() else (30, 6, 3)
+nprog, ncases, perfile = (400, 8, 4) if ck.thorough() else (24, 6, 3)
 env = dict(GOENV)
 env["VERIF_REPO"] = REPO
 rc, out = sh([exe, "-work", work, "-out", res, "-seed", str(ck.seed), "-n", str(nprog), "-cases", str(ncases),
@@ -253,7 +253,9 @@ ck.finish({
     "programs": len(progs), "programs_executed": executed_progs, "program_status": status,
     "cases_per_form": ncases, "ground_truth_panics": npanics,
     "forms_evaluated": forms_distinct, "forms_identical_to_evaluated": forms_same,
-    "agree": okcount, "mismatches": len(mismatches), "stuck": len(stuck), "out_of_fuel": len(fuel_cases),
+    "agree": okcount, "mismatches": len(mismatches),
+    "mismatches_of_recorded_findings": sum(1 for p, fm, ci, txt in mismatches
+                                           if vkey("", p, case_desc(p, ci), ci, fm) in load_known_findings().get("C01", {})), "stuck": len(stuck), "out_of_fuel": len(fuel_cases),
     "fuel": FUEL, "max_steps_of_agreeing_case": max_steps,
     "discarded": disc, "discard_rate": round(disc / max(1, evaluations), 4), "discards": discards, "unsupported_codes": unsupp_codes,
     "ssa_discipline_rejected_functions": ssa_funcs_bad,
